@@ -19,7 +19,8 @@ import common
 from common import LeanDriver, run_check
 
 GROUP = "charge_collection"
-MODEL = "probe"
+# the calibrated model carries the default name of its function (what a YAML file without `name:` customisation has)
+MODEL = "cal_probe_det"
 ROWS, COLS = 4, 5
 TOL = 1e-11  # relative tolerance on components of logarithmic variables (10**log10(b) is not exact in binary64)
 
@@ -151,10 +152,61 @@ def gen_case(rng, stream):
             if "bad" in vs[k]:
                 break
     case = {"stream": stream, "vars": vs, "xs": []}
+    if not bad:
+        _disable_some(rng, vs)
     _history_options(rng, case)
     if not any("bad" in v for v in vs):
         case["xs"] = [gen_x(rng, vs, exact) for _ in range(rng.choice([1, 2, 3]))]
     return case
+
+
+def _disable_some(rng, vs):
+    """`enabled: false` entries at any position of the declaration (first / middle / last, before a logarithmic one).
+    Two readings are acceptable for calibration — calibrated like the others, or left out of the decision vector — as
+    long as the tree follows ONE of them everywhere: `reading_of` takes it from the size of the optimiser box."""
+    if len(vs) >= 2 and rng.random() < 0.3:
+        k = rng.randrange(len(vs))
+        vs[k]["enabled"] = False
+        if rng.random() < 0.3:
+            vs[(k + 1) % len(vs)]["enabled"] = False
+        if not any(v.get("enabled", True) for v in vs):
+            vs[0].pop("enabled")
+
+
+def enabled_only(vs):
+    return [v for v in vs if v.get("enabled", True)]
+
+
+def reading_of(vs, box_len):
+    if all(v.get("enabled", True) for v in vs) or box_len == sum(slots_of(v) for v in vs):
+        return "all"
+    if box_len == sum(slots_of(v) for v in enabled_only(vs)):
+        return "enabled-only"
+    return None
+
+
+def effective(vs, reading):
+    return enabled_only(vs) if reading == "enabled-only" else vs
+
+
+def project(vs, x):
+    """the components of a full-layout decision vector that belong to the enabled variables"""
+    out, a = [], 0
+    for v in vs:
+        n = slots_of(v)
+        if v.get("enabled", True):
+            out += list(x[a:a + n])
+        a += n
+    return out
+
+
+def view(case, impl):
+    """(variables, decision vectors) of the case under the reading of `enabled: false` the implementation shows"""
+    vs = case["vars"]
+    r = impl.get("reading", "all") if isinstance(impl, dict) else "all"
+    if r == "enabled-only":
+        return enabled_only(vs), impl.get("xs_used", [project(vs, x) for x in case["xs"]])
+    return vs, case["xs"]
 
 
 def _history_options(rng, case):
@@ -165,6 +217,8 @@ def _history_options(rng, case):
         case["via"] = "yaml"
     if rng.random() < 0.3:
         case["pre_exposure"] = True
+    if rng.random() < 0.3:
+        vs[0]["twin"] = True  # read by _pipeline: a second model with the same function in front of the calibrated one
 
 
 def gen_history_case(rng, force):
@@ -186,6 +240,8 @@ def gen_run_case(rng, algo, single=False):
             vs[0]["values"], vs[0]["bounds"] = "_", (vs[0]["bounds"][0] if isinstance(vs[0]["bounds"][0], list) else vs[0]["bounds"])
         if sum(slots_of(v) for v in vs) <= 6:
             break
+    if not single:
+        _disable_some(rng, vs)
     opts = {"vars": vs}
     _history_options(rng, opts)
     opts.pop("vars")
@@ -201,7 +257,7 @@ def own_cal(log):
     """the probe's records written through the pipeline built last (its `_token` argument): worker threads of an
     earlier, e.g. failed, calibration may still be evaluating and logging while the next case runs"""
     needle = '"_token":"%s"' % _TOKEN["pipe"]
-    return [r for r in log if r[0] == "cal" and needle in r[1]]
+    return [r for r in log if r[0] == "cal" and needle in r[1] and '"_model":"main"' in r[1]]
 
 
 def _pipeline(vs):
@@ -210,12 +266,17 @@ def _pipeline(vs):
     import pyx
 
     _TOKEN["pipe"] = uuid.uuid4().hex
-    args = {"_token": _TOKEN["pipe"]}
+    args = {"_token": _TOKEN["pipe"], "_model": "main"}
     for v in vs:
         if v.get("det"):
             continue
         args[v["key"]] = [0.0] * len(v["values"]) if isinstance(v["values"], list) else v.get("default", 0.0)
-    return pyx.make_pipeline({GROUP: [{"name": MODEL, "func": "probes.cal_probe_det", "arguments": args}]})
+    models = [{"name": MODEL, "func": "probes.cal_probe_det", "arguments": args}]
+    if any(v.get("twin") for v in vs):
+        # the same function twice in the group: a custom-named model BEFORE the default-named, calibrated one
+        # (`background` then `cal_probe_det`): every key must address the model of that NAME
+        models.insert(0, {"name": "background", "func": "probes.cal_probe_det", "arguments": {**args, "_model": "bg"}})
+    return pyx.make_pipeline({GROUP: models})
 
 
 def _param_values_yaml(vs):
@@ -240,7 +301,8 @@ def _param_values_yaml(vs):
                 "target_data_path": [tmp + "/target.npy"],
                 "fitness_function": {"func": "pyxel.calibration.fitness.sum_of_abs_residuals"},
                 "algorithm": {"type": "sade", "generations": 1, "population_size": 8},
-                "parameters": [{"key": full_key(v), "values": v["values"], "logarithmic": v["log"], "boundaries": v["bounds"]} for v in vs],
+                "parameters": [{"key": full_key(v), "values": v["values"], "logarithmic": v["log"], "boundaries": v["bounds"],
+                                "enabled": v.get("enabled", True)} for v in vs],
             },
             "ccd_detector": {
                 "geometry": {"row": ROWS, "col": COLS, "total_thickness": 10.0, "pixel_vert_size": 10.0, "pixel_horz_size": 10.0},
@@ -261,7 +323,7 @@ def _param_values(vs, via="python"):
     if via == "yaml":
         return _param_values_yaml(vs)
     return [ParameterValues(key=full_key(v), values=tuple(v["values"]) if (v.get("as_tuple") and isinstance(v["values"], list)) else v["values"],
-                            logarithmic=v["log"], boundaries=v["bounds"]) for v in vs]
+                            logarithmic=v["log"], boundaries=v["bounds"], enabled=v.get("enabled", True)) for v in vs]
 
 
 def _err(e):
@@ -354,14 +416,18 @@ def _eval_problem(vs, case, tmp, pvs):
         return {"error": _err(e), "stage": stage, "msg": str(e)[:200]}
     lb, ub = prob.get_bounds()
     out = {"bounds": [[float(a) for a in lb], [float(a) for a in ub]], "evals": []}
-    for x in case["xs"]:
+    out["reading"] = reading_of(vs, len(lb)) or "all"
+    xs_used = [project(vs, x) for x in case["xs"]] if out["reading"] == "enabled-only" else case["xs"]
+    out["xs_used"] = xs_used
+    vs_eff = effective(vs, out["reading"])
+    for x in xs_used:
         try:
-            out["evals"].append(_eval_x(prob, vs, x))
+            out["evals"].append(_eval_x(prob, vs_eff, x))
         except Exception as e:  # noqa: BLE001  (a candidate inside the box must be applicable)
             out["evals"].append({"error": common.err_kind(e), "msg": str(e)[:200]})
-    if case["xs"]:
+    if xs_used:
         try:
-            p2 = prob.convert_to_parameters(np.array(case["xs"]))
+            p2 = prob.convert_to_parameters(np.array(xs_used))
             out["reported2d"] = [[float(t) for t in row] for row in p2]
         except Exception as e:  # noqa: BLE001
             out["reported2d_error"] = common.err_kind(e)
@@ -687,9 +753,10 @@ def flatten(assigned):
 
 
 def predicate_direct(case, impl):
-    vs = case["vars"]
     if "error" in impl:
         return None  # the statement says nothing about rejected declarations
+    vs, xs_view = view(case, impl)
+    case = {**case, "vars": vs, "xs": xs_view}
     logs = [v["log"] for v in vs]
     bx = box(vs)
     import math
@@ -720,6 +787,14 @@ def predicate_run(case, impl):
     vs = case["vars"]
     if "error" in impl:
         return ("C10:run-fails", f"calibration failed: {impl['error']} {impl.get('msg', '')}")
+    reading = reading_of(vs, len(impl["lb"]))
+    if reading is None:
+        return ("C10:bounds-vector", f"the optimiser box has {len(impl['lb'])} components: neither all declared placeholders nor the enabled ones only")
+    if reading == "enabled-only":
+        vs = enabled_only(vs)
+        keep = {v["key"] for v in vs}
+        impl = {**impl, "evals": [[a for a in ev if a[0] in keep] for ev in impl["evals"]],
+                "champion_reapplied": [[a for a in ev if a[0] in keep] for ev in impl["champion_reapplied"]]}
     logs = [v["log"] for v in vs]
     logs_flat = [lg for _, _, lg in box(vs)]
     for ev in impl["evals"]:
@@ -760,6 +835,9 @@ def _regroup(vs, flat):
 # ------------------------------------------------------------------ comparison with the model
 def compare_direct(case, impl, ans):
     """None if model == implementation (canonicalised), else a description"""
+    if "error" not in impl:
+        vs_v, xs_v = view(case, impl)
+        case = {**case, "vars": vs_v, "xs": xs_v}
     vs = case["vars"]
     logs = [v["log"] for v in vs]
     mb = ans["bounds"]
@@ -839,11 +917,16 @@ def body(ck: common.Check):
     for i in range(6 if quick else 45):
         runs.append(gen_run_case(rng, algos[i % 3], single=(i % 3 == 0 and i < 6)))
     # model answers (direct streams): one batch
-    answers = LeanDriver("C10").batch([lean_request(c["vars"], c["xs"]) for c in cases])
-    for case, ans in zip(cases, answers):
+    # (the implementation runs first: the model is asked about the declaration under the reading of `enabled: false`
+    #  that the implementation shows — see _disable_some)
+    impls = [run_direct(c) for c in cases]
+    answers = LeanDriver("C10").batch([lean_request(*view(c, i)) for c, i in zip(cases, impls)])
+    for case, impl, ans in zip(cases, impls, answers):
         if "bad" in ans:
             raise common.InfraError(f"driver rejected request: {ans} for {case}")
-        impl = run_direct(case)
+        ck.count("disabled_entries", sum(1 for v in case["vars"] if not v.get("enabled", True)))
+        if any(not v.get("enabled", True) for v in case["vars"]) and "error" not in impl:
+            ck.count("reading_of_enabled_false=" + str(impl.get("reading")))
         total = sum(slots_of(v) for v in case["vars"])
         ck.case(case, nontrivial=("error" not in impl and total >= 2 and bool(case["xs"])), stream=case["stream"])
         ck.count("vars=%d" % len(case["vars"]))
@@ -851,6 +934,7 @@ def body(ck: common.Check):
         ck.count("vector_before_scalar", int(any(isinstance(a["values"], list) and b["values"] == "_" for a, b in zip(case["vars"], case["vars"][1:]))))
         ck.count("per_component_bounds", sum(1 for v in case["vars"] if isinstance(v["bounds"][0], list)))
         ck.count("declared_via_yaml", int(case.get("via") == "yaml"))
+        ck.count("same_function_twice_in_group", int(any(v.get("twin") for v in case["vars"])))
         ck.count("objects_ran_an_exposure_before", int(bool(case.get("pre_exposure"))))
         ck.count("tuple_declared_vectors", sum(1 for v in case["vars"] if v.get("as_tuple")))
         ck.count("int_default_scalars", sum(1 for v in case["vars"] if "default" in v))
@@ -899,12 +983,17 @@ def body(ck: common.Check):
     for case, impl in flat:
         xs = [] if "error" in impl else impl["champion_decision"] + impl.get("best_decision", [])
         xs = [x for x in xs if all(c == c and abs(c) != float("inf") for c in x)]
-        reqs.append(lean_request(case["vars"], xs))
+        vs_run = case["vars"] if "error" in impl else effective(case["vars"], reading_of(case["vars"], len(impl["lb"])) or "all")
+        reqs.append(lean_request(vs_run, xs))
     for (case, impl), ans in zip(flat, LeanDriver("C10").batch(reqs)):
         if "bad" in ans:
             raise common.InfraError(f"driver rejected request: {ans}")
         ck.count("run_evaluations", impl.get("n_evals", 0))
         if "error" not in impl:
+            vs_run = effective(case["vars"], reading_of(case["vars"], len(impl["lb"])) or "all")
+            keep = {v["key"] for v in vs_run}
+            impl = {**impl, "champion_reapplied": [[a for a in ev if a[0] in keep] for ev in impl["champion_reapplied"]]}
+            case = {**case, "vars": vs_run}
             logs_flat = [lg for _, _, lg in box(case["vars"])]
             rep = impl["champion_parameters"] + impl.get("best_parameters", [])
             for row, mv in zip(rep, ans["evals"]):
@@ -923,6 +1012,7 @@ def body(ck: common.Check):
                "declarations through the Python API (lists / tuples) or written to YAML and read by pyxel.configuration.loads (boundaries in the order written, "
                "per-component pairs in non-ascending order), detector/pipeline objects fresh or already used for an exposure before the calibration; "
                "the deprecated entry point pyxel.calibration_mode with 2-3 islands (reported champion vs the returned processors and simulated data); "
+               "`enabled: false` entries at any position (judged under the reading the tree shows: calibrated like the others, or left out everywhere); "
                "history: 3 problems in a row / 2 calibrations in a row from the SAME ParameterValues objects (half of them with a logarithmic "
                "vector with per-component boundaries), each judged against the original declaration, and the caller's ParameterValues "
                "(values, boundaries, logarithmic) compared before/after every build and run; "
